@@ -67,3 +67,43 @@ package adjRIBIn
 //@   ensures result == route.HiddenReasonNone ==> a.sessionAttrs.IBGP || (p.BGPPath.ASPath != nil && len(*p.BGPPath.ASPath) > 0)
 //@   ensures result == route.HiddenReasonNone ==> p.BGPPath.BGPPathA.OriginatorID != a.sessionAttrs.RouterID
 //@   ensures result == route.HiddenReasonNone ==> !spec_otcIneligible(a.sessionAttrs.PeerRoleEnabled, a.sessionAttrs.PeerRoleAdvByPeer, a.sessionAttrs.PeerRoleRemote, otc0, a.sessionAttrs.PeerASN)
+
+// Properties C25 / C26 (see routingtable/zz_contracts_verif.go for what is
+// decided). The Adj-RIB-In's lock is the first taken on the way of a route
+// through the tables.
+//@ locklevel AdjRIBIn.mu 10
+//@ guarded AdjRIBIn.exportFilterChain by mu
+
+//@ contract (*AdjRIBIn).Dump, (*AdjRIBIn).Flush, (*AdjRIBIn).ReplaceFilterChain, (*AdjRIBIn).UpdateNewClient, (*AdjRIBIn).AddPath, (*AdjRIBIn).RemovePath
+//@   props C25 C26
+//@   nosafety
+//@   acquires 10
+//@   locks C25
+//@   guards C26
+
+// Called with the write lock held.
+//@ contract (*AdjRIBIn).addPath, (*AdjRIBIn).removePath, (*AdjRIBIn).removePathsFromClients
+//@   props C25 C26
+//@   nosafety
+//@   requires verif_wheld(&a.mu)
+//@   acquires 11
+//@   locks C25
+//@   guards C26
+
+//@ contract (*AdjRIBIn).Register, (*AdjRIBIn).RegisterWithOptions
+//@   props C25
+//@   nosafety
+//@   acquires 10
+//@   locks C25
+
+//@ contract (*AdjRIBIn).Unregister, (*AdjRIBIn).ClientCount
+//@   props C25
+//@   nosafety
+//@   acquires 11
+//@   locks C25
+
+//@ contract (*AdjRIBIn).LPM, (*AdjRIBIn).Get, (*AdjRIBIn).GetLonger
+//@   props C25
+//@   nosafety
+//@   acquires 80
+//@   locks C25
